@@ -4,6 +4,8 @@ import (
 	"strings"
 
 	"verifharness/envh"
+	"verifharness/fw"
+	"verifharness/rng"
 	"verifharness/sx"
 )
 
@@ -14,6 +16,60 @@ var profile = envh.Profile{MaxHooks: 8, MaxReqs: 8, FailP: 300, BodyFailP: 100, 
 
 const rule = "random walks of 1..8 requests over 0..8 hooks where 30% of hook executions fail (call error / task non-zero exit), critical or not, " +
 	"alone or several at one point; non-trivial = at least one failing execution scripted and actually executed, and >=2 requests; distinct by input text"
+
+// clusterCase: SEVERAL hooks failing at the SAME trigger point with mixed criticality (calls and task
+// hooks), plus hooks at larger weights of the same pass that must not run once a critical one failed,
+// walked to by a fixed legal path.
+func clusterCase(r *rng.R) fw.Case {
+	type tr struct{ ev, src, dst string }
+	path := []tr{{"DEPLOY", "STANDBY", "DEPLOYED"}, {"CONFIGURE", "DEPLOYED", "CONFIGURED"}, {"START_ACTIVITY", "CONFIGURED", "RUNNING"}, {"STOP_ACTIVITY", "RUNNING", "CONFIGURED"}}
+	k := r.N(len(path))
+	t := path[k]
+	moment := rng.Pick(r, []string{"before_" + t.ev, "leave_" + t.src, "enter_" + t.dst, "after_" + t.ev})
+	w := rng.Pick(r, []int{-50, -1, 0, 10})
+	hooks := sx.L()
+	id := 0
+	nFail := r.Range(2, 4)
+	for i := 0; i < nFail; i++ {
+		kind := "call"
+		if r.P(1, 3) {
+			kind = "task"
+		}
+		crit := i == 0 || r.P(1, 3) // at least one critical, usually some non-critical too
+		if i == 1 {
+			crit = false
+		}
+		outs := sx.L(sx.B(true), sx.B(true), sx.B(true))
+		hooks.Add(sx.L(sx.I(id), sx.A(kind), sx.B(crit), sx.A(moment), sx.I(w), sx.A(moment), sx.I(w), outs))
+		id++
+	}
+	// later weights in the same pass (and one in the other pass / next moment)
+	for i := 0; i < r.Range(1, 3); i++ {
+		lw := w + r.Range(1, 40)
+		if w < 0 && lw >= 0 {
+			lw = -1
+			if lw <= w {
+				lw = w
+			}
+		}
+		kind := "call"
+		if r.P(1, 3) {
+			kind = "task"
+		}
+		hooks.Add(sx.L(sx.I(id), sx.A(kind), sx.B(r.Bool()), sx.A(moment), sx.I(lw), sx.A(moment), sx.I(lw), sx.L()))
+		id++
+	}
+	hooks.Add(sx.L(sx.I(id), sx.A("call"), sx.B(true), sx.A("after_"+t.ev), sx.I(5), sx.A("after_"+t.ev), sx.I(5), sx.L()))
+	// shuffle role order: map iteration decides which failure is visited last, role order who is started first
+	rng.Shuffle(r, hooks.List)
+	reqs := sx.L()
+	for i := 0; i <= k; i++ {
+		reqs.Add(sx.L(sx.A("T"), sx.A(path[i].ev), sx.B(true), sx.B(false)))
+	}
+	// the failing transition again (scripts fail 3 times), then something else
+	reqs.Add(sx.L(sx.A("T"), sx.A(t.ev), sx.B(true), sx.B(false)))
+	return fw.Case{Input: sx.L(hooks, reqs, sx.I(r.Range(0, 2))).String(), Tags: []string{"cluster", "critical-failures"}}
+}
 
 func nontrivial(input, obs string) bool {
 	in, err := sx.Parse(input)
